@@ -8,7 +8,7 @@ CHECKS = {
         "ref": "DESIGN.md 5 C12",
     },
     "C19": {
-        "text": "Kernel-checked theorems over an executable model of migrate.CopyLogs/CopyStable (abstract contiguous-log stores, cancellation as the k-th ctx.Err() check, injected GetLog/StoreLogs failures, deferred close as an explicit flag): for every well-formed source (any length incl. 0, any first index), every batchBytes : Z and an empty destination the copy returns Ok with dst = src (First, Last, every GetLog), using non-empty consecutive batches that start at last+1; under every cancellation point/fault the destination holds a prefix and Canceled is returned exactly when the cancellation precedes the last loop check; progress is closed on every return path; CopyStable transfers all standard and extra keys when the source does not fail on missing keys. The model is tied to /repo/migrate by differential execution of the real functions on all 9 pairings of raft.InmemStore, the real WAL and raft-boltdb/v2 (result kind, channel closed, number of GetLog calls, batch sizes, destination contents), with model-independent oracles (dst == src, prefix on cancel, channel closed, context's own error).",
+        "text": "Kernel-checked theorems over an executable model of migrate.CopyLogs/CopyStable (abstract contiguous-log stores, cancellation as the k-th ctx.Err() check, injected GetLog/StoreLogs failures, a source whose FirstIndex/LastIndex fails (e.g. an already closed WAL), deferred close as an explicit flag): for every well-formed source (any length incl. 0, any first index), every batchBytes : Z and an empty destination the copy returns Ok with dst = src (First, Last, every GetLog), using non-empty consecutive batches that start at last+1; under every cancellation point/fault the destination holds a prefix and Canceled is returned exactly when the cancellation precedes the last loop check; progress is closed on every return path; CopyStable transfers all standard and extra keys when the source does not fail on missing keys. The model is tied to /repo/migrate by differential execution of the real functions on all 9 pairings of raft.InmemStore, the real WAL and raft-boltdb/v2 (result kind, channel closed, number of GetLog calls, batch sizes, destination contents), with model-independent oracles (dst == src, prefix on cancel, channel closed, context's own error).",
         "note": "Trusted: Coq kernel, extraction, harness. Stores are abstracted to the contiguous-log spec; guards: source indexes >= 1, last index < MaxUint64, disjoint byte/uint64 stable key spaces. The theorem for CopyStable assumes the source does not fail on never-set keys; raft-boltdb and InmemStore do fail there and CopyStable then stops with an error (modelled and exercised; reported as a suspected defect in DESIGN.md 10 mig/fs, not counted as a violation because the property speaks about keys with values).",
         "technique": "Rocq proof (induction over the source log / key lists) + model/implementation correspondence",
         "ref": "DESIGN.md 5 C19",
